@@ -142,7 +142,12 @@ class ChebyshevPolynomialGeometry(NewtonRaphsonGeometry):
             np.ndarray: The derivative of the Chebyshev polynomial of the first
                 kind of degree n at the given x value.
         """
-        return n * np.sin(n * np.arccos(x)) / np.sqrt(1 - x**2)
+        x = np.asarray(x, dtype=float)
+        root = np.sqrt(1 - x**2)
+        with np.errstate(divide='ignore', invalid='ignore'):
+            value = n * np.sin(n * np.arccos(x)) / root
+        # T_n'(+-1) = (+-1)^(n+1) n^2 (the quotient above is 0 / 0 there)
+        return np.where(root == 0, np.sign(x)**(n + 1) * n**2, value)
 
     def _validate_inputs(self, x_norm, y_norm):
         """
